@@ -9,7 +9,10 @@ sys.path.insert(0, os.path.dirname(os.path.abspath(__file__)))
 import vcheck  # noqa: E402
 
 MODULES = {
+    "C09": "p_bcl",
     "C10": "p_c10",
+    "C11": "p_bcl",
+    "C19": "p_bcl",
     "C20": "p_id62",
 }
 
